@@ -23,9 +23,11 @@ RULE = (
     'characters; 1-8 steps, 1-6 layers/rows/cols; built by '
     'ioapi_base.from_arrays, griddesc text without/with CF variables, or '
     'saved to netCDF and re-opened with pncopen(format=ioapi)); one source '
-    'in six is first put out of sync (ioapispec.preps: one more variable '
-    'added by createVariable/copyVariable without updatemeta, or TFLAG '
-    'deleted) and is then not judged itself, only the results; then 1-6 '
+    'in four is first put out of sync (ioapispec.preps: one more variable '
+    'added by createVariable/copyVariable without updatemeta, TFLAG '
+    'deleted, or VAR-LIST without its padding - trailing blanks stripped / '
+    'names separated by single blanks) and is then not judged itself, only '
+    'the results; then 1-6 '
     '(thorough 1-14) chained operations, each drawn from the state of the '
     'file it is applied to: copy; sliceDimensions over a non-empty subset of '
     'TSTEP/LAY/ROW/COL with ints in [-n,n-1] or non-empty slices (step '
@@ -45,7 +47,12 @@ RULE = (
     '/ 2-3 tiles cut with sliceDimensions and re-assembled in order (single '
     'operand or list), along LAY with re-assembled tiles only (abutting '
     'level edges); one source in eight also holds a standard-dimension '
-    'variable with an over-long (unlistable) name; interpSigma '
+    'variable with an over-long (unlistable) name; mfopen: the file is cut '
+    'into 2-3 contiguous pieces along TSTEP/LAY/ROW/COL, the pieces are '
+    'saved as netCDF files and re-assembled through pncmfopen(paths, '
+    'stackdim, format=ioapi) or ioapi.open_mfdataset(*paths, stackdim) '
+    '(reader auto-detection and stack_files, which returns a plain file, '
+    'are not used); interpSigma '
     '(linear needs >=2 layers, conserve) to 1-6 new layers.  Half of the '
     'chains are drawn from the complement of the input classes of the known '
     'findings (currently: no stack along LAY).  Oracle after the construction and after every operation that '
@@ -89,7 +96,7 @@ ASSUMPTIONS = [
     'an operation that raises is not a result (C01 judges completion)',
     'audit_meta is used only as a second opinion; it raises KeyError on '
     'boundary files that carry NROWS/NCOLS (counted as audit-raised)']
-BUDGET = {'quick': dict(examples=4000, max_s=240, shrink_cap=250),
+BUDGET = {'quick': dict(examples=3600, max_s=240, shrink_cap=250),
           'thorough': dict(examples=30000, max_s=3000, shrink_cap=400)}
 
 REDUCERS = ('mean', 'sum', 'min', 'max', 'std')
@@ -103,7 +110,8 @@ CALLABLES = {
 MASKS = ('greater', 'less', 'greater_equal', 'less_equal', 'equal', 'values')
 FRESH = ('OZONE', 'NEWVAR', 'T1', 'Q', 'RENAMED_16_CHARS', 'SUM_AB')
 ANYSTD = [tuple(v) for v in I.STD_DIMS.values()]
-CHANGING = ('slice', 'apply', 'subset', 'rename', 'eval', 'stack', 'interp')
+CHANGING = ('slice', 'apply', 'subset', 'rename', 'eval', 'stack', 'interp',
+            'mfopen')
 
 
 # ------------------------------------------------------------------ oracle
@@ -268,6 +276,8 @@ def step_class(step):
         return 'stack:' + a['dim']
     if op == 'slice' and any(v[0] == 'list' for v in a['dims'].values()):
         return 'slice:zip'
+    if op == 'mfopen':
+        return 'mfopen:' + a['dim']
     return op
 
 
@@ -347,6 +357,16 @@ class Machine(object):
             self.r.label('stack:%s:%s' % (a.get('dim', 'TSTEP'), a['with']
                                           if isinstance(a['with'], str)
                                           else a['with'][0]))
+        if op == 'mfopen':
+            self.r.label('mfopen:%s:%s' % (a['dim'], a['entry']))
+            if self.disk is not None:
+                # the pieces are re-opened from disk: no other dataset may
+                # be open meanwhile (R8b); the chain left the source file
+                # with its first operation
+                d = self.disk
+                self.disk = None
+                libstate.release(d)
+                del d
         exc, out = attempt(EXEC[op], f, a)
         if exc is not None:
             self.r.label('raised:' + op)
@@ -425,7 +445,38 @@ def _stack(f, a):
     return parts[0].stack(rest[0] if len(rest) == 1 else rest, dim)
 
 
+def _mfopen(f, a):
+    """cut the file along a['dim'] at a['cuts'] with sliceDimensions, save
+    the pieces as netCDF files in the scratch directory and re-assemble
+    them through the multi-file entry point"""
+    import gc
+    import PseudoNetCDF as pnc
+    dim = a['dim']
+    cuts = [0] + list(a['cuts']) + [len(f.dimensions[dim])]
+    paths = []
+    for lo, hi in zip(cuts[:-1], cuts[1:]):
+        piece = f.sliceDimensions(**{dim: slice(lo, hi)})
+        path = libstate.scratch_path('.nc')
+        out = piece.save(path, format='NETCDF3_CLASSIC', verbose=0)
+        out.close()
+        del out, piece
+        gc.collect()
+        paths.append(path)
+    try:
+        if a['entry'] == 'open_mfdataset':
+            from PseudoNetCDF.cmaqfiles._ioapi import ioapi
+            res = ioapi.open_mfdataset(*paths, stackdim=dim)
+        else:
+            res = pnc.pncmfopen(paths, stackdim=dim, format='ioapi')
+    finally:
+        # the piece files were opened inside the call; nothing refers to
+        # them any more: finalise them now, while nothing else is open
+        gc.collect()
+    return res
+
+
 EXEC = {
+    'mfopen': _mfopen,
     'copy': lambda f, a: f.copy(),
     'slice': _slice,
     'subset': lambda f, a: f.subsetVariables(list(a['names'])),
@@ -474,7 +525,25 @@ def draw_step(draw, s, avoid):
            'mask', 'stack', 'stack', 'interp', 'interp']
     if dv:
         ops += ['subset', 'subset', 'eval', 'eval', 'rename', 'rename']
+    mfdims = [d for d in ('TSTEP', 'LAY', 'LAY', 'ROW', 'COL')
+              if dims.get(d, 0) >= 2]
+    if mfdims and not s['on_disk']:
+        ops += ['mfopen']
     op = draw(st.sampled_from(ops))
+    if op == 'mfopen':
+        # disk route of stack: pieces cut along one dimension (contiguous,
+        # in order, so level edges abut), saved and re-assembled by
+        # pncmfopen(paths, stackdim=..., format='ioapi') or
+        # ioapi.open_mfdataset(*paths, stackdim=...)
+        dim = draw(st.sampled_from(mfdims))
+        n = dims[dim]
+        k = draw(st.integers(1, min(2, n - 1)))
+        cuts = sorted(draw(st.lists(st.integers(1, n - 1), min_size=k,
+                                    max_size=k, unique=True)))
+        return ['mfopen', {'dim': dim, 'cuts': cuts,
+                           'entry': draw(st.sampled_from(
+                               ['pncmfopen', 'pncmfopen',
+                                'open_mfdataset']))}]
     if op == 'copy':
         return ['copy', {}]
     if op == 'slice' and 'ROW' in dims and 'COL' in dims and \
@@ -617,7 +686,7 @@ def interactive(draw):
         r.label('complement-of-known')
     nsteps = draw(st.integers(1, MAXSTEPS[_tier()]))
     prep = 'synced'
-    if draw(st.integers(0, 3)) == 0:
+    if draw(st.integers(0, 2)) == 0:
         prep = draw(I.preps(spec))
     m = Machine(spec, r, prep)
     try:
@@ -693,3 +762,18 @@ known.register('C10-name16-split', lambda j, f: (
 # ioapi stack along LAY joins the data but keeps the first operand's VGLVLS
 known.register('C10-stack-lay-vglvls', lambda j, f: (
     f.klass == 'stack:LAY' and f.clause == 'vglvls-len'))
+
+# _add2Varlist appends a 16-wide field to a VAR-LIST that is not fixed-width
+# (unpadded / blank separated input): the new name fuses with the last one
+# and both are pruned.  Only the first operation on such a source can show
+# it (every result is fixed-width again).
+known.register('C10-unpadded-varlist-append', lambda j, f: (
+    I.prep_kind(j.get('prep')) in ('varlist-stripped',
+                                   'varlist-single-blank') and
+    len(j['steps']) == 1 and
+    # input class: the operation makes _add2Varlist append a name
+    (j['file']['route'] == 'griddesc_cf' or
+     j['steps'][0][0] in ('eval', 'rename')) and
+    # symptom: names were pruned, so that nothing is listed although a
+    # listable variable exists (the list itself is fixed-width again)
+    f.clause in ('nvars-vardim', 'nvars-tflag')))
